@@ -1,3 +1,1176 @@
-import NoteSeqVerif.Model.C07
+import NoteSeqVerif.Proofs.C07
+/-! C07 — property theorems (DESIGN 6.7) and non-vacuity examples.
+Models: `Model/C07.lean`; specification vocabulary: `Proofs/C07Spec.lean`; helper lemmas: `Proofs/C07.lean`. -/
 namespace NSV.C07
+
+/-! ## PianorollSequence -/
+
+/-- `pianoroll_frames`: for `0 < spq`, `start_step ≤ total_quantized_steps`, a non-negative pitch range and notes that
+do not end before they start nor start beyond the total, extraction returns exactly the frames of the statement:
+`total − start` frames, frame `f` = the increasing list of pitch offsets `p` with `rollSpec … f p` (`rollSpec_iff`).
+No overlap precondition is needed: painting in start order makes the silenced frame before a re-strike win. -/
+theorem pianoroll_frames (s : NoteSeq) (startStep minP maxP : Int) (split : Bool)
+    (hq : 0 < s.spq) (hT : startStep ≤ s.totalQSteps) (hW : minP ≤ maxP + 1)
+    (hwf : ∀ n ∈ s.notes, n.qs ≤ n.qe ∧ n.qs ≤ s.totalQSteps) :
+    pianorollFromQuantized s startStep minP maxP split =
+      .ok (specFrames s.notes ⟨startStep, minP, maxP, split, s.totalQSteps - startStep⟩) := by
+  have hperm : (sortByInt (·.qs) s.notes).Perm s.notes := List.mergeSort_perm _ _
+  have hnoerr : (sortByInt (·.qs) s.notes).any
+      (rollIndexErr ⟨startStep, minP, maxP, split, s.totalQSteps - startStep⟩) = false := by
+    rw [hperm.any_eq, Bool.eq_false_iff]; intro h
+    rw [List.any_eq_true] at h
+    obtain ⟨n, hn, he⟩ := h
+    have := hwf n hn
+    simp only [rollIndexErr, rollSel, Bool.and_eq_true, decide_eq_true_eq] at he
+    omega
+  unfold pianorollFromQuantized
+  simp only [hq, not_true_eq_false, ↓reduceIte, hnoerr]
+  rw [if_neg (by omega)]
+  simp only [Bool.false_eq_true, ↓reduceIte, rollFrames, specFrames]
+  congr 1
+  apply List.map_congr_left
+  intro f hf
+  congr 1
+  apply List.filter_congr
+  intro p hp
+  rw [List.mem_range] at hf hp
+  rw [paint_foldl _ _ _ _ (sortByInt_pairwise _ _), hperm.any_eq, hperm.any_eq]
+  simp only [Bool.false_or, rollSpec]
+  have h1 : (s.notes.any fun n => rollSel ⟨startStep, minP, maxP, split, s.totalQSteps - startStep⟩ n &&
+        rollCovers ⟨startStep, minP, maxP, split, s.totalQSteps - startStep⟩ n f p) =
+      (s.notes.any fun n => rollSel ⟨startStep, minP, maxP, split, s.totalQSteps - startStep⟩ n &&
+        decide (n.qs ≤ (f : Int) + startStep) && decide ((f : Int) + startStep < n.qe) && n.pitch == (p : Int) + minP) := by
+    apply any_congr_mem
+    intro n hn
+    have := hwf n hn
+    by_cases hsel : rollSel ⟨startStep, minP, maxP, split, s.totalQSteps - startStep⟩ n = true
+    · have hsel' := hsel
+      simp only [rollSel, Bool.and_eq_true, decide_eq_true_eq] at hsel'
+      simp only [hsel, Bool.true_and, rollCovers, normIdx]
+      rw [Bool.eq_iff_iff]
+      simp only [Bool.and_eq_true, decide_eq_true_eq, beq_iff_eq]
+      have : ¬ (n.qe - startStep < 0) := by omega
+      simp only [this, ↓reduceIte]
+      omega
+    · simp [hsel]
+  have h2 : (s.notes.any fun n => rollSel ⟨startStep, minP, maxP, split, s.totalQSteps - startStep⟩ n &&
+        rollClears ⟨startStep, minP, maxP, split, s.totalQSteps - startStep⟩ n f p) =
+      (split && s.notes.any fun n => rollSel ⟨startStep, minP, maxP, split, s.totalQSteps - startStep⟩ n &&
+        n.qs == (f : Int) + startStep + 1 && n.pitch == (p : Int) + minP) := by
+    cases split with
+    | false => simp [rollClears]
+    | true =>
+      simp only [Bool.true_and]
+      apply any_congr_mem
+      intro n hn
+      simp only [rollClears, Bool.true_and]
+      by_cases hsel : rollSel ⟨startStep, minP, maxP, true, s.totalQSteps - startStep⟩ n = true
+      · simp only [hsel, Bool.true_and]
+        rw [Bool.eq_iff_iff]
+        simp only [Bool.and_eq_true, decide_eq_true_eq, beq_iff_eq]
+        omega
+      · simp [hsel]
+  rw [h1, h2, Bool.and_comm]
+
+
+
+
+
+
+/-- `rollSpec` read as a proposition: some selected in-range note sounds at step `f + start`, and — with
+`split_repeats` — no selected note of that pitch starts at the next step -/
+theorem rollSpec_iff (notes : List Note) (c : RollCfg) (f p : Int) :
+    rollSpec notes c f p = true ↔
+      (∃ n ∈ notes, rollSel c n = true ∧ n.qs ≤ f + c.start ∧ f + c.start < n.qe ∧ n.pitch = p + c.minP) ∧
+      (c.split = true → ¬ ∃ n ∈ notes, rollSel c n = true ∧ n.qs = f + c.start + 1 ∧ n.pitch = p + c.minP) := by
+  simp only [rollSpec, Bool.and_eq_true, List.any_eq_true, decide_eq_true_eq, beq_iff_eq,
+    Bool.not_eq_true', Bool.and_eq_false_iff, List.any_eq_false]
+  constructor
+  · rintro ⟨⟨n, hn, ⟨⟨hs, h1⟩, h2⟩, h3⟩, h4⟩
+    refine ⟨⟨n, hn, hs, h1, h2, h3⟩, ?_⟩
+    intro hsp ⟨m, hm, hms, hmq, hmp⟩
+    rcases h4 with h4 | h4
+    · rw [hsp] at h4; exact absurd h4 (by simp)
+    · exact h4 m hm ⟨⟨hms, hmq⟩, hmp⟩
+  · rintro ⟨⟨n, hn, hs, h1, h2, h3⟩, h4⟩
+    refine ⟨⟨n, hn, ⟨⟨hs, h1⟩, h2⟩, h3⟩, ?_⟩
+    cases hsp : c.split with
+    | false => left; rfl
+    | true =>
+      right
+      intro m hm hcon
+      exact h4 hsp ⟨m, hm, hcon.1.1, hcon.1.2, hcon.2⟩
+
+/-- frame `f` of the roll contains pitch offset `p` iff `p` is in range and the statement's condition holds -/
+theorem pianoroll_frame_mem (s : NoteSeq) (startStep minP maxP : Int) (split : Bool)
+    (hq : 0 < s.spq) (hT : startStep ≤ s.totalQSteps) (hW : minP ≤ maxP + 1)
+    (hwf : ∀ n ∈ s.notes, n.qs ≤ n.qe ∧ n.qs ≤ s.totalQSteps) :
+    ∃ evs, pianorollFromQuantized s startStep minP maxP split = .ok evs ∧
+      (evs.length : Int) = s.totalQSteps - startStep ∧
+      ∀ (f : Nat) (frame : List Int), evs[f]? = some frame →
+        frame.Pairwise (· < ·) ∧
+        ∀ p : Int, p ∈ frame ↔ (0 ≤ p ∧ p ≤ maxP - minP ∧
+          rollSpec s.notes ⟨startStep, minP, maxP, split, s.totalQSteps - startStep⟩ f p = true) := by
+  refine ⟨_, pianoroll_frames s startStep minP maxP split hq hT hW hwf, ?_, ?_⟩
+  · simp only [specFrames, List.length_map, List.length_range]; omega
+  · intro f frame hf
+    simp only [specFrames, List.getElem?_map] at hf
+    by_cases hlt : f < (s.totalQSteps - startStep).toNat
+    · rw [List.getElem?_range hlt] at hf
+      simp only [Option.map_some, Option.some.injEq] at hf
+      subst hf
+      constructor
+      · rw [List.pairwise_map]
+        apply List.Pairwise.filter
+        apply List.Pairwise.imp _ (List.pairwise_lt_range)
+        intro a b h; omega
+      · intro p
+        simp only [List.mem_map, List.mem_filter, List.mem_range]
+        constructor
+        · rintro ⟨q, ⟨hq1, hq2⟩, rfl⟩
+          exact ⟨by omega, by omega, hq2⟩
+        · rintro ⟨h0, h1, h2⟩
+          refine ⟨p.toNat, ⟨by omega, ?_⟩, by omega⟩
+          rw [show ((p.toNat : Nat) : Int) = p by omega]; exact h2
+    · rw [List.getElem?_eq_none (by simp; omega)] at hf
+      exact absurd hf (by simp)
+
+/-- `IndexError` exactly when a selected note with `split_repeats` starts beyond the end of the roll -/
+theorem pianoroll_index_error_iff (s : NoteSeq) (startStep minP maxP : Int) (split : Bool)
+    (hq : 0 < s.spq) (hT : startStep ≤ s.totalQSteps) (hW : minP ≤ maxP + 1) :
+    pianorollFromQuantized s startStep minP maxP split = .error .indexError ↔
+      ∃ n ∈ s.notes, rollSel ⟨startStep, minP, maxP, split, s.totalQSteps - startStep⟩ n = true ∧
+        split = true ∧ s.totalQSteps < n.qs := by
+  have hperm : (sortByInt (·.qs) s.notes).Perm s.notes := List.mergeSort_perm _ _
+  unfold pianorollFromQuantized
+  simp only [hq, not_true_eq_false, ↓reduceIte]
+  rw [if_neg (by omega), hperm.any_eq]
+  by_cases hany : s.notes.any (rollIndexErr ⟨startStep, minP, maxP, split, s.totalQSteps - startStep⟩) = true
+  · simp only [hany, ↓reduceIte, true_iff]
+    rw [List.any_eq_true] at hany
+    obtain ⟨n, hn, he⟩ := hany
+    simp only [rollIndexErr, Bool.and_eq_true, decide_eq_true_eq] at he
+    exact ⟨n, hn, he.1.1.1, he.1.1.2, by omega⟩
+  · simp only [hany, Bool.false_eq_true, ↓reduceIte, reduceCtorEq, false_iff]
+    rintro ⟨n, hn, hs, hsp, hgt⟩
+    apply hany
+    rw [List.any_eq_true]
+    refine ⟨n, hn, ?_⟩
+    have hs' := hs
+    simp only [rollSel, Bool.and_eq_true, decide_eq_true_eq] at hs'
+    simp only [rollIndexErr, Bool.and_eq_true, decide_eq_true_eq]
+    exact ⟨⟨⟨hs, hsp⟩, by omega⟩, by omega⟩
+
+
+/-! ## DrumTrack -/
+
+/-- no selected drum note (drum or `ignore_is_drum`, non-zero velocity, `qs ≥ search_start_step`): the track stays empty
+with `start_step = end_step = 0` -/
+theorem drums_empty (s : NoteSeq) (searchStart gapBars : Int) (padEnd ignoreIsDrum : Bool) (spb : Int)
+    (hspb : stepsPerBar s = .ok spb)
+    (hsel : s.notes.filter (drumSel searchStart ignoreIsDrum) = []) :
+    drumsFromQuantized s searchStart gapBars padEnd ignoreIsDrum = .ok ⟨[], 0, 0, spb, s.spq⟩ := by
+  simp [drumsFromQuantized, hspb, hsel, canonSet]
+
+/-- `drums_steps`: with `first` the earliest selected step and `last` the step the track stops at —
+* the track starts at the bar of `first` (`bar_start`);
+* `last` is a selected step reached from `first` by hops that leave fewer than `gap_bars` bars of empty steps, and
+  every later selected step is `gap_bars` bars or more after `last + 1` (so `last` is unique);
+* the length is `last − start + 1`, rounded up to a bar iff `pad_end`; `end_step = start_step + length`;
+* event `i` is the set of pitches (`pitchesAt`: strictly increasing list, `mem_pitchesAt`) of the selected notes with
+  `qs = start + i` up to `last`, and empty in the padding. -/
+theorem drums_steps (s : NoteSeq) (searchStart gapBars : Int) (padEnd ignoreIsDrum : Bool) (spb : Int)
+    (hspb : stepsPerBar s = .ok spb) (hpos : 0 < spb)
+    (hne : s.notes.filter (drumSel searchStart ignoreIsDrum) ≠ []) :
+    ∃ r first last,
+      drumsFromQuantized s searchStart gapBars padEnd ignoreIsDrum = .ok r ∧
+      (∃ n ∈ s.notes.filter (drumSel searchStart ignoreIsDrum), n.qs = first) ∧
+      (∀ n ∈ s.notes.filter (drumSel searchStart ignoreIsDrum), first ≤ n.qs) ∧
+      r.startStep = first - Int.fmod (first - searchStart) spb ∧
+      r.stepsPerBar = spb ∧ r.stepsPerQuarter = s.spq ∧
+      (∃ n ∈ s.notes.filter (drumSel searchStart ignoreIsDrum), n.qs = last) ∧
+      (∀ n ∈ s.notes.filter (drumSel searchStart ignoreIsDrum), n.qs ≤ last →
+          n.qs = first ∨ ∃ m ∈ s.notes.filter (drumSel searchStart ignoreIsDrum),
+            m.qs < n.qs ∧ n.qs - (m.qs + 1) < gapBars * spb) ∧
+      (∀ n ∈ s.notes.filter (drumSel searchStart ignoreIsDrum), last < n.qs →
+          gapBars * spb ≤ n.qs - (last + 1)) ∧
+      r.endStep = r.startStep + r.events.length ∧
+      (r.events.length : Int) = (last - r.startStep + 1) +
+          (if padEnd then Int.fmod (-(last - r.startStep + 1)) spb else 0) ∧
+      ∀ i : Nat, i < r.events.length →
+        r.events[i]? = some (if r.startStep + i ≤ last
+          then pitchesAt (s.notes.filter (drumSel searchStart ignoreIsDrum)) (r.startStep + i) else []) := by
+  generalize hseldef : s.notes.filter (drumSel searchStart ignoreIsDrum) = sel at hne ⊢
+  have hsorted := canonSet_sorted (sel.map (·.qs))
+  have hmem : ∀ t, t ∈ canonSet (sel.map (·.qs)) ↔ ∃ n ∈ sel, n.qs = t := by
+    intro t; simp [mem_canonSet]
+  unfold drumsFromQuantized
+  simp only [hspb, hseldef]
+  cases hsteps : canonSet (sel.map (·.qs)) with
+  | nil =>
+    exfalso
+    cases sel with
+    | nil => exact hne rfl
+    | cons n ns =>
+      have := (hmem n.qs).mpr ⟨n, List.mem_cons_self .., rfl⟩
+      rw [hsteps] at this; exact absurd this (List.not_mem_nil)
+  | cons first rest =>
+    rw [hsteps] at hsorted hmem
+    have hfirst_le : ∀ n ∈ sel, first ≤ n.qs := by
+      intro n hn
+      have := (hmem n.qs).mpr ⟨n, hn, rfl⟩
+      rcases List.mem_cons.mp this with h | h
+      · omega
+      · have := (List.pairwise_cons.mp hsorted).1 _ h; omega
+    have hfm0 := Int.fmod_nonneg_of_pos (first - searchStart) hpos
+    simp only [show ¬ spb = 0 by omega, show ¬ spb < 0 by omega, ↓reduceIte]
+    generalize hstart : first - Int.fmod (first - searchStart) spb = start
+    have hinv := drumLoop_inv sel start (gapBars * spb) (first :: rest) [] hsorted
+      (by intro t ht
+          have : first ≤ t := by
+            rcases List.mem_cons.mp ht with h | h
+            · omega
+            · have := (List.pairwise_cons.mp hsorted).1 _ h; omega
+          simp only [List.length_nil]; omega)
+      (by intro i hi; simp at hi)
+      (by intro n hn _; exact (hmem n.qs).mpr ⟨n, hn, rfl⟩)
+    simp only [List.length_nil, Int.natCast_zero] at hinv
+    change _ at hinv
+    generalize hout : drumLoop sel start (gapBars * spb) (first :: rest) [] 0 = out at hinv
+    obtain ⟨_, i2, i3, i4, i5, i6⟩ := hinv
+    have hlen0 : out.length ≠ 0 := i2 trivial (by simp)
+    simp only [hlen0, ↓reduceIte]
+    have hlast : start + (out.length : Int) - 1 ∈ first :: rest := by
+      rcases i4 with h | h
+      · exact absurd h hlen0
+      · exact h
+    have hfmpad := Int.fmod_nonneg_of_pos (-(out.length : Int)) hpos
+    refine ⟨_, first, start + out.length - 1, rfl, (hmem first).mp (List.mem_cons_self ..), hfirst_le,
+      hstart.symm, rfl, rfl, (hmem _).mp hlast, ?_, ?_, ?_, ?_, ?_⟩
+    · intro n hn hle
+      have hnm := (hmem n.qs).mpr ⟨n, hn, rfl⟩
+      rcases i6 n.qs hnm (by omega) with ⟨_, hh⟩ | ⟨e, he, hle', hlt⟩
+      · left; simpa using hh.symm
+      · right
+        rcases he with ⟨_, h0⟩ | he
+        · exact absurd rfl h0
+        · obtain ⟨m, hm, hmq⟩ := (hmem _).mp he
+          exact ⟨m, hm, by omega, by omega⟩
+    · intro n hn hlt
+      have hnm := (hmem n.qs).mpr ⟨n, hn, rfl⟩
+      have := i5 n.qs hnm (by omega)
+      omega
+    · simp only [length_setLength]
+      cases padEnd <;> simp only [Bool.false_eq_true, ↓reduceIte] <;> omega
+    · simp only [length_setLength]
+      have : start + (out.length : Int) - 1 - start + 1 = out.length := by omega
+      rw [this]
+      cases padEnd <;> simp only [Bool.false_eq_true, ↓reduceIte] <;> omega
+    · intro i hi
+      simp only [length_setLength] at hi
+      rw [getElem?_setLength _ _ _ _ hi]
+      by_cases hil : i < out.length
+      · have := i3 i hil
+        rw [List.getElem?_eq_getElem hil] at this
+        simp only [hil, ↓reduceDIte, show start + (i : Int) ≤ start + out.length - 1 by omega, ↓reduceIte]
+        exact this
+      · simp only [hil, ↓reduceDIte, show ¬ start + (i : Int) ≤ start + out.length - 1 by omega, ↓reduceIte]
+
+
+
+
+/-! ## ChordProgression -/
+
+/-- `CoincidentChordsError` exactly when two different chord symbols share a step inside `[start, end)` -/
+theorem chords_coincident_iff (s : NoteSeq) (start end_ spb : Int) (hspb : stepsPerBar s = .ok spb)
+    (hse : start < end_) :
+    chordsFromQuantized s start end_ = .error .coincidentChordsError ↔ ChordsCoincident s start end_ := by
+  rcases chords_top s start end_ spb hspb hse with ⟨hc, he⟩ | ⟨hc, E, hE, _⟩
+  · exact ⟨fun _ => hc, fun _ => he⟩
+  · constructor
+    · intro h; rw [hE] at h; exact absurd h (by simp)
+    · intro h; exact absurd h hc
+
+/-- otherwise event `i` is the chord in force at step `start + i`: the text of the last chord annotation (in
+step order, ties in storage order) at or before that step, `NO_CHORD` if there is none -/
+theorem chords_steps (s : NoteSeq) (start end_ spb : Int) (hspb : stepsPerBar s = .ok spb)
+    (hse : start < end_) (hnc : ¬ ChordsCoincident s start end_) :
+    ∃ E, chordsFromQuantized s start end_ = .ok ⟨E, start, end_, spb, s.spq⟩ ∧
+      (E.length : Int) = end_ - start ∧
+      ∀ i : Nat, (i : Int) < end_ - start →
+        E[i]? = some (chordAt Gen.NO_CHORD (chordAnns s) (start + i)) := by
+  rcases chords_top s start end_ spb hspb hse with ⟨hc, _⟩ | ⟨_, E, hE, hl, hs⟩
+  · exact absurd hc hnc
+  · exact ⟨E, hE, hl, hs⟩
+
+/-! ## NotePerformance -/
+
+/-- one tuple per selected note, in `(start_time, pitch)` order: `(qs − previous qs, pitch, velocity bin, qe − qs)`,
+when no shift and no duration exceeds its limit.  `hord`: the start-time order agrees with the step order
+(true of quantizer output, which is monotone) -/
+theorem noteperf_tuples (s : NoteSeq) (nb : Int) (inst : Option Int) (start ms md : Int)
+    (hq : 0 < s.sps) (hnb1 : 1 ≤ nb) (hnb2 : nb ≤ 127)
+    (hvalid : ∀ n ∈ s.notes, start ≤ n.qs → instOk inst n = true → NPValid n)
+    (hord : (sortedNotes s start inst).Pairwise (fun a b => a.qs ≤ b.qs))
+    (hlim : ∀ i n, (sortedNotes s start inst)[i]? = some n →
+        n.qs - prevStep start (sortedNotes s start inst) i ≤ ms ∧ n.qe - n.qs ≤ md) :
+    ∃ evs, notePerfFromQuantized s nb inst start ms md =
+        .ok ⟨evs, start, nb, (programAndIsDrum s inst).1, (programAndIsDrum s inst).2, s.sps⟩ ∧
+      evs.length = (sortedNotes s start inst).length ∧
+      ∀ i n, (sortedNotes s start inst)[i]? = some n →
+        evs[i]? = some (npTuple nb start (sortedNotes s start inst) i n) := by
+  have hv : ∀ n ∈ sortedNotes s start inst, NPValid n := by
+    intro n hn; rw [mem_sortedNotes] at hn; exact hvalid n hn.1 hn.2.1 hn.2.2
+  have hge : ∀ n ∈ sortedNotes s start inst, start ≤ n.qs := by
+    intro n hn; rw [mem_sortedNotes] at hn; exact hn.2.1
+  have hnbv : ¬ nb > Gen.MAX_NUM_VELOCITY_BINS := by simp only [Gen.MAX_NUM_VELOCITY_BINS]; omega
+  rcases notePerfLoop_spec nb ms md (by omega) _ start hv hge hord with
+    ⟨_, evs, hevs, hlen, hspec⟩ | ⟨⟨i, n, hin, hgt, _⟩, _⟩ | ⟨⟨i, n, hin, _, hgt, _⟩, _⟩
+  · refine ⟨evs, ?_, hlen, hspec⟩
+    simp only [notePerfFromQuantized, hnbv, ↓reduceIte, hq, not_true_eq_false, hevs]
+  · have := (hlim i n hin).1; omega
+  · have := (hlim i n hin).2; omega
+
+/-- `TooManyTimeShiftStepsError` / `TooManyDurationStepsError` exactly when a value exceeds its limit; which of
+the two is decided by the first offending note (its shift is checked before its duration) -/
+theorem noteperf_errors (s : NoteSeq) (nb : Int) (inst : Option Int) (start ms md : Int)
+    (hq : 0 < s.sps) (hnb1 : 1 ≤ nb) (hnb2 : nb ≤ 127)
+    (hvalid : ∀ n ∈ s.notes, start ≤ n.qs → instOk inst n = true → NPValid n)
+    (hord : (sortedNotes s start inst).Pairwise (fun a b => a.qs ≤ b.qs)) :
+    let l := sortedNotes s start inst
+    let r := notePerfFromQuantized s nb inst start ms md
+    ((∃ i n, l[i]? = some n ∧ (n.qs - prevStep start l i > ms ∨ n.qe - n.qs > md)) ↔
+      (r = .error .tooManyTimeShiftStepsError ∨ r = .error .tooManyDurationStepsError)) ∧
+    (r = .error .tooManyTimeShiftStepsError ↔
+      ∃ i n, l[i]? = some n ∧ n.qs - prevStep start l i > ms ∧
+        ∀ j m, j < i → l[j]? = some m → m.qs - prevStep start l j ≤ ms ∧ m.qe - m.qs ≤ md) ∧
+    (r = .error .tooManyDurationStepsError ↔
+      ∃ i n, l[i]? = some n ∧ n.qs - prevStep start l i ≤ ms ∧ n.qe - n.qs > md ∧
+        ∀ j m, j < i → l[j]? = some m → m.qs - prevStep start l j ≤ ms ∧ m.qe - m.qs ≤ md) := by
+  intro l r
+  have hv : ∀ n ∈ l, NPValid n := by
+    intro n hn; rw [mem_sortedNotes] at hn; exact hvalid n hn.1 hn.2.1 hn.2.2
+  have hge : ∀ n ∈ l, start ≤ n.qs := by
+    intro n hn; rw [mem_sortedNotes] at hn; exact hn.2.1
+  have hnbv : ¬ nb > Gen.MAX_NUM_VELOCITY_BINS := by simp only [Gen.MAX_NUM_VELOCITY_BINS]; omega
+  have hr : r = match notePerfLoop nb ms md start l with
+      | .error x => .error x
+      | .ok evs => .ok ⟨evs, start, nb, (programAndIsDrum s inst).1, (programAndIsDrum s inst).2, s.sps⟩ := by
+    simp only [r, notePerfFromQuantized, hnbv, ↓reduceIte, hq, not_true_eq_false]
+    rfl
+  rcases notePerfLoop_spec nb ms md (by omega) l start hv hge hord with
+    ⟨hall, evs, hevs, _, _⟩ | ⟨⟨i, n, hin, hgt, hbef⟩, herr⟩ | ⟨⟨i, n, hin, hle, hgt, hbef⟩, herr⟩
+  · rw [hevs] at hr
+    refine ⟨⟨?_, ?_⟩, ⟨?_, ?_⟩, ⟨?_, ?_⟩⟩
+    · rintro ⟨i, n, hin, h | h⟩ <;> have := hall i n hin <;> omega
+    · rintro (h | h) <;> rw [hr] at h <;> exact absurd h (by simp)
+    · intro h; rw [hr] at h; exact absurd h (by simp)
+    · rintro ⟨i, n, hin, h, _⟩; have := hall i n hin; omega
+    · intro h; rw [hr] at h; exact absurd h (by simp)
+    · rintro ⟨i, n, hin, _, h, _⟩; have := hall i n hin; omega
+  · rw [herr] at hr
+    refine ⟨⟨fun _ => Or.inl hr, fun _ => ⟨i, n, hin, Or.inl hgt⟩⟩, ⟨fun _ => ⟨i, n, hin, hgt, hbef⟩, fun _ => hr⟩,
+      ⟨?_, ?_⟩⟩
+    · intro h; rw [hr] at h; exact absurd h (by simp)
+    · rintro ⟨i', n', hin', hle', hgt', hbef'⟩
+      exfalso
+      rcases Nat.lt_trichotomy i i' with h | h | h
+      · have := (hbef' i n h hin).1; omega
+      · subst h; rw [hin] at hin'; simp only [Option.some.injEq] at hin'; subst hin'; omega
+      · have := (hbef i' n' h hin').2; omega
+  · rw [herr] at hr
+    refine ⟨⟨fun _ => Or.inr hr, fun _ => ⟨i, n, hin, Or.inr hgt⟩⟩, ⟨?_, ?_⟩,
+      ⟨fun _ => ⟨i, n, hin, hle, hgt, hbef⟩, fun _ => hr⟩⟩
+    · intro h; rw [hr] at h; exact absurd h (by simp)
+    · rintro ⟨i', n', hin', hgt', hbef'⟩
+      exfalso
+      rcases Nat.lt_trichotomy i i' with h | h | h
+      · have := (hbef' i n h hin).2; omega
+      · subst h; rw [hin] at hin'; simp only [Option.some.injEq] at hin'; subst hin'; omega
+      · have := (hbef i' n' h hin').1; omega
+
+
+/-! ## Performance / MetricPerformance -/
+
+/-- `perf_shifts`: in the output of `BasePerformance._from_quantized_sequence` every TIME_SHIFT lies in
+`1..max_shift_steps`; every NOTE_ON / NOTE_OFF happens — start step plus the shifts before it — exactly at the
+quantized start / end step of its note, in `note_events` order; and the shifts sum to the elapsed steps
+(the last note event's step minus `start_step`). -/
+theorem perf_shifts (s : NoteSeq) (start nb ms : Int) (inst : Option Int) (evs : List PEvent)
+    (hms : 1 ≤ ms)
+    (hwf : ∀ n ∈ s.notes, start ≤ n.qs → instOk inst n = true → n.qs ≤ n.qe)
+    (h : perfEvents s start nb ms inst = .ok evs) :
+    (∀ v, PEvent.timeShift v ∈ evs → 1 ≤ v ∧ v ≤ ms) ∧
+    noteStream start evs =
+      (noteEvents (sortedNotes s start inst)).map (fun e => (e.toPEvent, e.step)) ∧
+    (∀ e ∈ noteEvents (sortedNotes s start inst), e.step ≤ start + shiftSum evs) ∧
+    (noteEvents (sortedNotes s start inst) = [] ∨
+      ∃ e ∈ noteEvents (sortedNotes s start inst), e.step = start + shiftSum evs) := by
+  unfold perfEvents at h
+  cases hl : perfLoop nb ms ⟨start, 0, []⟩ (noteEvents (sortedNotes s start inst)) with
+  | error x => rw [hl] at h; exact absurd h (by simp)
+  | ok st' =>
+    rw [hl] at h
+    simp only [Except.ok.injEq] at h
+    have hge : ∀ e ∈ noteEvents (sortedNotes s start inst), start ≤ e.step := by
+      intro e he
+      obtain ⟨hm, hstep⟩ := mem_noteEvents he
+      rw [mem_sortedNotes] at hm
+      have := hwf _ hm.1 hm.2.1 hm.2.2
+      rcases hstep with h' | h' <;> omega
+    obtain ⟨new, ho, hs, hns, hc, hle, hlast⟩ :=
+      perfLoop_spec nb ms hms _ ⟨start, 0, []⟩ st' (noteEvents_sorted _) hge hl
+    simp only [List.nil_append] at ho
+    rw [ho] at h; subst h
+    rw [hc] at hle hlast
+    exact ⟨hs, hns, hle, hlast⟩
+
+/-- the multiset of `(NOTE_ON pitch, step)` and `(NOTE_OFF pitch, step)` pairs in the event list is exactly: one
+NOTE_ON at `qs` and one NOTE_OFF at `qe` for every selected note. -/
+theorem perf_onoff_multiset (s : NoteSeq) (start nb ms : Int) (inst : Option Int) (evs : List PEvent)
+    (hms : 1 ≤ ms)
+    (hwf : ∀ n ∈ s.notes, start ≤ n.qs → instOk inst n = true → n.qs ≤ n.qe)
+    (h : perfEvents s start nb ms inst = .ok evs) :
+    (noteStream start evs).Perm
+      ((selectNotes s start inst).map (fun n => (PEvent.noteOn n.pitch, n.qs)) ++
+       (selectNotes s start inst).map (fun n => (PEvent.noteOff n.pitch, n.qe))) := by
+  rw [(perf_shifts s start nb ms inst evs hms hwf h).2.1]
+  have hp := (List.mergeSort_perm (onsets (sortedNotes s start inst) ++ offsets (sortedNotes s start inst)) nevLe).map
+    (fun e => (e.toPEvent, e.step))
+  refine hp.trans ?_
+  rw [List.map_append,
+    onsets_map _ _ (fun n => (PEvent.noteOn n.pitch, n.qs)) (by intro n i; rfl),
+    offsets_map _ _ (fun n => (PEvent.noteOff n.pitch, n.qe)) (by intro n i; rfl)]
+  have hs : (sortedNotes s start inst).Perm (selectNotes s start inst) := List.mergeSort_perm _ _
+  exact (hs.map _).append (hs.map _)
+
+
+/-- `perf_notes_multiset`: the notes denoted by the event list — `_to_sequence`'s reading: FIFO matching per pitch,
+velocity bin from the last VELOCITY event (`decodeNotes`) — are, as a multiset of `(pitch, qs, qe, velocity bin)`,
+exactly the selected input notes, whenever no two selected notes of one pitch overlap -/
+theorem perf_notes_multiset (s : NoteSeq) (start nb ms : Int) (inst : Option Int) (evs : List PEvent)
+    (hms : 1 ≤ ms) (hno : NoSamePitchOverlap (selectNotes s start inst))
+    (hpos : ∀ n ∈ selectNotes s start inst, n.qs < n.qe)
+    (h : perfEvents s start nb ms inst = .ok evs) :
+    (decodeNotes start evs).Perm
+      ((selectNotes s start inst).map fun n => (n.pitch, n.qs, n.qe, binOf nb 0 n)) := by
+  have hperm : (sortedNotes s start inst).Perm (selectNotes s start inst) := List.mergeSort_perm _ _
+  have hpos' : ∀ n ∈ sortedNotes s start inst, n.qs < n.qe := fun n hn => hpos n (hperm.mem_iff.mp hn)
+  have hno' : NoSamePitchOverlap (sortedNotes s start inst) := by
+    unfold NoSamePitchOverlap at hno ⊢
+    refine (List.Perm.pairwise_iff ?_ hperm).mpr hno
+    intro a b hab hp
+    exact (hab hp.symm).symm
+  -- the abstract stream of the event list
+  unfold perfEvents at h
+  cases hl : perfLoop nb ms ⟨start, 0, []⟩ (noteEvents (sortedNotes s start inst)) with
+  | error x => rw [hl] at h; exact absurd h (by simp)
+  | ok st' =>
+    rw [hl] at h
+    simp only [Except.ok.injEq] at h
+    have hge : ∀ e ∈ noteEvents (sortedNotes s start inst), start ≤ e.step := by
+      intro e he
+      obtain ⟨hm, hstep⟩ := mem_noteEvents he
+      have := hpos' _ hm
+      rw [mem_sortedNotes] at hm
+      rcases hstep with h' | h' <;> omega
+    obtain ⟨new, ho, habs⟩ :=
+      perfLoop_abs nb ms hms _ ⟨start, 0, []⟩ st' (noteEvents_sorted _) hge (fun _ => rfl) hl
+    simp only [List.nil_append] at ho
+    rw [ho] at h; subst h
+    -- FIFO invariant over all note events
+    have hinv := fifo_all nb (sortedNotes s start inst) hpos' (noSamePitch_index hno')
+      (noteEvents (sortedNotes s start inst)) [] ⟨[], []⟩ (by simp) ⟨by simp [openCond], by simp⟩
+    simp only [List.nil_append] at hinv
+    obtain ⟨hopen, hout⟩ := hinv
+    obtain ⟨_, _, hpart⟩ := noteEvents_facts (sortedNotes s start inst) hpos'
+    have hopen_nil : (noteEvents (sortedNotes s start inst)).filter
+        (openCond (noteEvents (sortedNotes s start inst))) = [] := by
+      rw [List.filter_eq_nil_iff]
+      intro e he
+      simp only [openCond, Bool.and_eq_true, Bool.not_eq_true', decide_eq_true_eq, not_and, Decidable.not_not]
+      intro _; exact (hpart e he).2
+    rw [hopen_nil] at hopen
+    simp only [List.map_nil] at hopen
+    unfold decodeNotes
+    simp only [decode_abs, habs, hopen, List.filter_nil, List.map_nil, List.append_nil]
+    refine hout.trans ?_
+    have hfilt : ((noteEvents (sortedNotes s start inst)).filter (·.isOff)).Perm (offsets (sortedNotes s start inst)) := by
+      have h1 : ((onsets (sortedNotes s start inst) ++ offsets (sortedNotes s start inst)).filter (·.isOff)) =
+          offsets (sortedNotes s start inst) := by
+        rw [List.filter_append]
+        have a : (onsets (sortedNotes s start inst)).filter (·.isOff) = [] := by
+          rw [List.filter_eq_nil_iff]; intro e he
+          simp only [onsets, List.mem_map] at he
+          obtain ⟨⟨n, i⟩, _, rfl⟩ := he; simp
+        have b : (offsets (sortedNotes s start inst)).filter (·.isOff) = offsets (sortedNotes s start inst) := by
+          rw [List.filter_eq_self]; intro e he
+          simp only [offsets, List.mem_map] at he
+          obtain ⟨⟨n, i⟩, _, rfl⟩ := he; rfl
+        rw [a, b, List.nil_append]
+      have := (List.mergeSort_perm (onsets (sortedNotes s start inst) ++ offsets (sortedNotes s start inst)) nevLe).filter
+        (·.isOff)
+      rw [h1] at this
+      exact this
+    refine (hfilt.map _).trans ?_
+    rw [offsets_map _ _ (fun n => (n.pitch, n.qs, n.qe, binOf nb 0 n)) (by intro n i; rfl)]
+    exact hperm.map _
+
+
+/-- the order-preserving refinement on the onset side (no overlap precondition needed): the NOTE_ON events,
+each with the step at which it happens and the velocity bin in force (last VELOCITY event before it; `0` = none,
+which is the case exactly when `num_velocity_bins = 0`), are — in `note_events` order — the onsets of the selected
+notes with their pitch, quantized start step and velocity bin; as a multiset: one per selected note. -/
+theorem perf_onsets_in_order (s : NoteSeq) (start nb ms : Int) (inst : Option Int) (evs : List PEvent)
+    (hms : 1 ≤ ms)
+    (hwf : ∀ n ∈ s.notes, start ≤ n.qs → instOk inst n = true → n.qs ≤ n.qe)
+    (h : perfEvents s start nb ms inst = .ok evs) :
+    onStream start 0 evs =
+      ((noteEvents (sortedNotes s start inst)).filter (fun e => !e.isOff)).map
+        (fun e => (e.note.pitch, e.step, binOf nb 0 e.note)) ∧
+    (onStream start 0 evs).Perm
+      ((selectNotes s start inst).map (fun n => (n.pitch, n.qs, binOf nb 0 n))) := by
+  unfold perfEvents at h
+  cases hl : perfLoop nb ms ⟨start, 0, []⟩ (noteEvents (sortedNotes s start inst)) with
+  | error x => rw [hl] at h; exact absurd h (by simp)
+  | ok st' =>
+    rw [hl] at h
+    simp only [Except.ok.injEq] at h
+    have hge : ∀ e ∈ noteEvents (sortedNotes s start inst), start ≤ e.step := by
+      intro e he
+      obtain ⟨hm, hstep⟩ := mem_noteEvents he
+      rw [mem_sortedNotes] at hm
+      have := hwf _ hm.1 hm.2.1 hm.2.2
+      rcases hstep with h' | h' <;> omega
+    obtain ⟨new, ho, _, hon⟩ :=
+      perfLoop_on nb ms hms _ ⟨start, 0, []⟩ st' (noteEvents_sorted _) hge (fun _ => rfl) hl
+    simp only [List.nil_append] at ho
+    rw [ho] at h; subst h
+    refine ⟨hon, ?_⟩
+    rw [hon]
+    have hp := (filter_on_noteEvents (sortedNotes s start inst)).map
+      (fun e => (e.note.pitch, e.step, binOf nb 0 e.note))
+    refine hp.trans ?_
+    rw [onsets_map _ _ (fun n => (n.pitch, n.qs, binOf nb 0 n)) (by intro n i; rfl)]
+    exact (List.mergeSort_perm _ _).map _
+
+
+
+/-- on the quantifier's domain (pitches and — when velocity bins are used — velocities in MIDI range, at least one
+step per shift) extraction returns an event list: none of the `ValueError`s of `PerformanceEvent` can fire -/
+theorem perf_defined (s : NoteSeq) (start nb ms : Int) (inst : Option Int)
+    (hms : 1 ≤ ms) (hnb : 0 ≤ nb)
+    (hvalid : ∀ n ∈ s.notes, start ≤ n.qs → instOk inst n = true →
+      (0 ≤ n.pitch ∧ n.pitch ≤ 127) ∧ (nb ≠ 0 → 1 ≤ n.velocity ∧ n.velocity ≤ 127)) :
+    ∃ evs, perfEvents s start nb ms inst = .ok evs := by
+  obtain ⟨st', h⟩ := perfLoop_defined nb ms hms hnb (noteEvents (sortedNotes s start inst)) ⟨start, 0, []⟩
+    (by intro e he
+        obtain ⟨hm, _⟩ := mem_noteEvents he
+        rw [mem_sortedNotes] at hm
+        exact hvalid _ hm.1 hm.2.1 hm.2.2)
+  exact ⟨st'.out, by simp only [perfEvents, h]⟩
+
+
+/-! ## NonIntegerStepsPerBarError -/
+
+/-- the bar length is rejected exactly when `spq·4·num/den` is not an integer, and is that integer otherwise -/
+theorem steps_per_bar_nonInteger_iff (R : Rat → Rat) (s : NoteSeq) (ts : TimeSig) (rest : List TimeSig)
+    (hts : s.timeSigs = ts :: rest) (hq : 0 < s.spq) (hden : ts.den ≠ 0)
+    (hR : SpbExact R s.spq ts.num ts.den) :
+    (stepsPerBarR R s = .error .nonIntegerStepsPerBarError ↔ ¬ ts.den ∣ s.spq * 4 * ts.num) ∧
+    (∀ k : Int, stepsPerBarR R s = .ok k ↔ s.spq * 4 * ts.num = k * ts.den) := by
+  have hden' : (ts.den : Rat) ≠ 0 := by exact_mod_cast hden
+  have hval : stepsPerBarFloatR R s = .ok (((s.spq * 4 * ts.num : Int) : Rat) / (ts.den : Rat)) := by
+    simp only [stepsPerBarFloatR, hq, not_true_eq_false, ↓reduceIte, hts, hden]
+    rw [hR.1, hR.2.1, hR.2.2]
+    congr 1
+    have : ((s.spq * 4 * ts.num : Int) : Rat) = (s.spq : Rat) * 4 * (ts.num : Rat) := by norm_cast
+    rw [this]; grind
+  have hint := rat_isInt_iff (s.spq * 4 * ts.num) ts.den hden
+  unfold stepsPerBarR
+  rw [hval]
+  by_cases hd : (((s.spq * 4 * ts.num : Int) : Rat) / (ts.den : Rat)).den = 1
+  · simp only [hd, ne_eq, not_true_eq_false, ↓reduceIte, reduceCtorEq, false_iff, Decidable.not_not,
+      Except.ok.injEq]
+    refine ⟨hint.mp hd, ?_⟩
+    intro k
+    have h1 : ((s.spq * 4 * ts.num : Int) : Rat) / (ts.den : Rat) =
+        (((((s.spq * 4 * ts.num : Int) : Rat) / (ts.den : Rat)).num : Int) : Rat) := Rat.ext rfl hd
+    constructor
+    · intro hk
+      rw [hk] at h1
+      have : ((s.spq * 4 * ts.num : Int) : Rat) = (k : Rat) * (ts.den : Rat) := by grind
+      exact_mod_cast this
+    · intro hk
+      have : ((s.spq * 4 * ts.num : Int) : Rat) / (ts.den : Rat) = (k : Rat) := by
+        have : ((s.spq * 4 * ts.num : Int) : Rat) = (k : Rat) * (ts.den : Rat) := by exact_mod_cast hk
+        grind
+      rw [this]; simp
+  · simp only [hd, ne_eq, not_false_eq_true, ↓reduceIte, true_iff, reduceCtorEq, false_iff]
+    refine ⟨fun h => hd (hint.mpr h), ?_⟩
+    intro k hk
+    exact hd (hint.mpr ⟨k, by rw [hk, Int.mul_comm]⟩)
+
+/-- with exact arithmetic (`R = id`) the hypothesis is void -/
+theorem spbExact_id (spq num den : Int) : SpbExact id spq num den := ⟨rfl, rfl, rfl⟩
+
+
+/-- Melody, DrumTrack and ChordProgression extraction raise `NonIntegerStepsPerBarError` exactly when the bar
+length computation does (see `steps_per_bar_nonInteger_iff` for when that is) -/
+theorem extractors_nonInteger_iff (s : NoteSeq) :
+    (∀ ss inst gap ip pad fd, melodyFromQuantized s ss inst gap ip pad fd = .error .nonIntegerStepsPerBarError ↔
+      stepsPerBar s = .error .nonIntegerStepsPerBarError) ∧
+    (∀ ss gap pad ign, drumsFromQuantized s ss gap pad ign = .error .nonIntegerStepsPerBarError ↔
+      stepsPerBar s = .error .nonIntegerStepsPerBarError) ∧
+    (∀ a b, chordsFromQuantized s a b = .error .nonIntegerStepsPerBarError ↔
+      stepsPerBar s = .error .nonIntegerStepsPerBarError) := by
+  refine ⟨?_, ?_, ?_⟩
+  · intro ss inst gap ip pad fd
+    unfold melodyFromQuantized
+    cases hspb : stepsPerBar s with
+    | error e => simp
+    | ok spb =>
+      simp only [reduceCtorEq, iff_false]
+      intro h
+      split at h
+      · exact absurd h (by simp)
+      · split at h
+        · exact absurd h (by simp)
+        · split at h
+          · exact absurd h (by simp)
+          · split at h
+            · rename_i e he
+              simp only [Except.error.injEq] at h; subst h
+              rcases melLoop_error _ _ _ _ _ _ _ he with h | h | h <;> exact absurd h (by simp)
+            · split at h <;> exact absurd h (by simp)
+  · intro ss gap pad ign
+    unfold drumsFromQuantized
+    cases hspb : stepsPerBar s with
+    | error e => simp
+    | ok spb =>
+      simp only [reduceCtorEq, iff_false]
+      intro h
+      split at h
+      · exact absurd h (by simp)
+      · split at h
+        · exact absurd h (by simp)
+        · split at h
+          · exact absurd h (by simp)
+          · split at h <;> exact absurd h (by simp)
+  · intro a b
+    unfold chordsFromQuantized
+    cases hspb : stepsPerBar s with
+    | error e => simp
+    | ok spb =>
+      simp only [reduceCtorEq, iff_false]
+      intro h
+      split at h
+      · rename_i e he
+        simp only [Except.error.injEq] at h; subst h
+        rcases chordLoop_error _ _ _ _ _ _ _ he with h | h <;> exact absurd h (by simp)
+      · split at h
+        · rename_i e he
+          simp only [Except.error.injEq] at h; subst h
+          unfold chordFinish at he
+          dsimp only at he
+          split at he
+          · exact absurd (addChord_error he) (by simp)
+          · split at he
+            · exact absurd (addChord_error he) (by simp)
+            · exact absurd he (by simp)
+        · exact absurd h (by simp)
+
+
+
+/-! ## Melody -/
+
+/-- no selected note: the melody stays empty with `start_step = end_step = 0` -/
+theorem melody_empty (s : NoteSeq) (ss inst gapBars : Int) (ip pad fd : Bool) (spb : Int)
+    (hspb : stepsPerBar s = .ok spb) (hsel : s.notes.filter (melSel ss inst fd) = []) :
+    melodyFromQuantized s ss inst gapBars ip pad fd = .ok ⟨[], 0, 0, spb, s.spq⟩ := by
+  have : (s.notes.filter (melSel ss inst fd)).mergeSort melLe = [] := by rw [hsel]; simp
+  simp only [melodyFromQuantized, hspb, this]
+
+/-- `melody_steps` (DESIGN 6.7).  `first :: rest` are the selected notes (instrument, `qs ≥ search_start_step`, not a
+filtered drum, non-zero velocity) in `(start step, −pitch)` order; `K` are the notes the melody keeps (see `keptFrom`,
+characterised declaratively by the `kept_*` theorems).  Then:
+* `PolyphonicMelodyError` iff polyphony is not ignored and a second note on a kept onset is met (`dupFrom`);
+* otherwise the melody starts at the bar of the first selected note, its length is the end of the last kept note —
+  rounded up to a bar with `pad_end` — and every event follows the per-step rule `melRule`. -/
+theorem melody_steps (s : NoteSeq) (ss inst gapBars : Int) (ip pad fd : Bool) (spb : Int)
+    (hspb : stepsPerBar s = .ok spb) (hpos : 0 < spb)
+    (hvalid : ∀ n ∈ s.notes, melSel ss inst fd n = true → n.qs < n.qe ∧ 0 ≤ n.pitch)
+    (first : Note) (rest : List Note)
+    (hL : (s.notes.filter (melSel ss inst fd)).mergeSort melLe = first :: rest) :
+    (ip = false ∧ dupFrom (gapBars * spb) first rest = true →
+      melodyFromQuantized s ss inst gapBars ip pad fd = .error .polyphonicMelodyError) ∧
+    (¬ (ip = false ∧ dupFrom (gapBars * spb) first rest = true) →
+      ∃ last evs, (first :: keptFrom (gapBars * spb) first rest).getLast? = some last ∧
+        melodyFromQuantized s ss inst gapBars ip pad fd =
+          .ok ⟨evs, first.qs - Int.fmod (first.qs - ss) spb,
+               first.qs - Int.fmod (first.qs - ss) spb + evs.length, spb, s.spq⟩ ∧
+        (evs.length : Int) = (last.qe - (first.qs - Int.fmod (first.qs - ss) spb)) +
+          (if pad then Int.fmod (-(last.qe - (first.qs - Int.fmod (first.qs - ss) spb))) spb else 0) ∧
+        ∀ i : Nat, i < evs.length →
+          evs[i]? = some (melRule (first :: keptFrom (gapBars * spb) first rest)
+            (first.qs - Int.fmod (first.qs - ss) spb + i))) := by
+  have hmem : ∀ n ∈ first :: rest, n ∈ s.notes ∧ melSel ss inst fd n = true := by
+    intro n hn
+    rw [← hL, List.mem_mergeSort, List.mem_filter] at hn
+    exact hn
+  have hsel : ∀ n ∈ first :: rest, (fd && n.isDrum) = false ∧ n.velocity ≠ 0 := by
+    intro n hn
+    have := (hmem n hn).2
+    simp only [melSel, Bool.and_eq_true, beq_iff_eq, decide_eq_true_eq, Bool.not_eq_true', bne_iff_ne, ne_eq] at this
+    exact ⟨this.1.2, this.2⟩
+  have hval : ∀ n ∈ first :: rest, n.qs < n.qe ∧ 0 ≤ n.pitch := fun n hn => hvalid n (hmem n hn).1 (hmem n hn).2
+  have hsorted : (first :: rest).Pairwise (fun a b => a.qs ≤ b.qs) := by
+    rw [← hL]
+    apply List.Pairwise.imp _ (melSorted _)
+    intro a b h; rcases h with h | h <;> omega
+  have hfm0 := Int.fmod_nonneg_of_pos (first.qs - ss) hpos
+  generalize hms : first.qs - Int.fmod (first.qs - ss) spb = mstart at *
+  have hf_sel := hsel first (List.mem_cons_self ..)
+  have hf_val := hval first (List.mem_cons_self ..)
+  -- first iteration
+  obtain ⟨A, hadd, hAlen, hA⟩ := addNote_form [] (Or.inl rfl) first.pitch (first.qs - mstart) (first.qe - mstart)
+    (by omega) (by omega)
+  have hm : (first.qe - mstart - (first.qs - mstart) - 1).toNat = (first.qe - first.qs - 1).toNat := by omega
+  rw [hm] at hadd
+  have hloop1 : melLoop fd ip (gapBars * spb) mstart (first :: rest) [] =
+      melLoop fd ip (gapBars * spb) mstart rest (A ++ noteTail first.pitch (first.qe - first.qs - 1).toNat) := by
+    rw [melLoop]
+    simp only [hf_sel.1, Bool.false_eq_true, ↓reduceIte, hf_sel.2, List.length_nil, hadd]
+  have hrule : ∀ i, i < A.length → A[i]? = some (melRule ([] ++ [first]) (mstart + i)) := by
+    intro i hi
+    rw [hA i hi, melRule_before [] first _ (by omega)]
+    simp [melRule]
+  have hspec := melLoop_spec fd ip (gapBars * spb) mstart rest [] first A
+    (fun n hn => hsel n (List.mem_cons_of_mem _ hn)) (fun n hn => hval n (List.mem_cons_of_mem _ hn))
+    hf_val hsorted (by simp) (by omega) hrule
+  have hunf : melodyFromQuantized s ss inst gapBars ip pad fd =
+      match melLoop fd ip (gapBars * spb) mstart rest (A ++ noteTail first.pitch (first.qe - first.qs - 1).toNat) with
+      | .error e => .error e
+      | .ok ev =>
+        if ev.length = 0 then .ok ⟨[], 0, 0, spb, s.spq⟩
+        else
+          let ev1 := if ev.getLast? = some Gen.MELODY_NOTE_OFF then ev.dropLast else ev
+          let length : Int :=
+            if pad then ev1.length + Int.fmod (-(ev1.length : Int)) spb else ev1.length
+          .ok ⟨melSetLength ev1 length.toNat, mstart, mstart + length, spb, s.spq⟩ := by
+    simp only [melodyFromQuantized, hspb, hL, show ¬ spb = 0 by omega, show ¬ spb < 0 by omega, ↓reduceIte, hms,
+      hloop1]
+    cases melLoop fd ip (gapBars * spb) mstart rest (A ++ noteTail first.pitch (first.qe - first.qs - 1).toNat) <;> rfl
+  rw [hunf]
+  by_cases hdup : (!ip && dupFrom (gapBars * spb) first rest) = true
+  · rw [if_pos hdup] at hspec
+    simp only [Bool.and_eq_true, Bool.not_eq_true'] at hdup
+    refine ⟨fun _ => by rw [hspec], fun h => absurd hdup h⟩
+  · rw [if_neg hdup] at hspec
+    simp only [Bool.and_eq_true, Bool.not_eq_true'] at hdup
+    refine ⟨fun h => absurd h hdup, fun _ => ?_⟩
+    obtain ⟨A', k', K0', hK, hres, hk', hK0', hA'len, hA'rule⟩ := hspec
+    simp only [List.nil_append] at hK
+    rw [hres]
+    have hlen0 : ¬ (A' ++ noteTail k'.pitch (k'.qe - k'.qs - 1).toNat).length = 0 := by simp [length_noteTail]
+    simp only [hlen0, ↓reduceIte, getLast?_noteTail, dropLast_noteTail]
+    have hlen1 : ((A' ++ k'.pitch :: List.replicate (k'.qe - k'.qs - 1).toNat Gen.MELODY_NO_EVENT).length : Int) =
+        k'.qe - mstart := by
+      simp only [List.length_append, List.length_cons, List.length_replicate]; omega
+    have hfmpad := Int.fmod_nonneg_of_pos (-(k'.qe - mstart)) hpos
+    generalize hlength : (if pad = true then
+        ((A' ++ k'.pitch :: List.replicate (k'.qe - k'.qs - 1).toNat Gen.MELODY_NO_EVENT).length : Int) +
+          Int.fmod (-((A' ++ k'.pitch :: List.replicate (k'.qe - k'.qs - 1).toNat Gen.MELODY_NO_EVENT).length : Int)) spb
+        else ((A' ++ k'.pitch :: List.replicate (k'.qe - k'.qs - 1).toNat Gen.MELODY_NO_EVENT).length : Int)) = length
+    have hlength' : length = (k'.qe - mstart) + (if pad = true then Int.fmod (-(k'.qe - mstart)) spb else 0) := by
+      rw [← hlength, hlen1]; cases pad <;> simp
+    have hge : A'.length + (k'.qe - k'.qs - 1).toNat + 1 ≤ length.toNat := by
+      rw [hlength']; cases pad <;> simp only [Bool.false_eq_true, ↓reduceIte] <;> omega
+    obtain ⟨hflen, hfidx⟩ := melFinish A' k'.pitch (k'.qe - k'.qs - 1).toNat hk'.2 length.toNat hge
+    refine ⟨k', melSetLength (A' ++ k'.pitch :: List.replicate (k'.qe - k'.qs - 1).toNat Gen.MELODY_NO_EVENT) length.toNat,
+      by rw [← hK, List.getLast?_concat], ?_, ?_, ?_⟩
+    · rw [hflen]
+      have : ((length.toNat : Nat) : Int) = length := by
+        rw [hlength']; cases pad <;> simp only [Bool.false_eq_true, ↓reduceIte] <;> omega
+      rw [this]
+    · rw [hflen, hlength']
+      cases pad <;> simp only [Bool.false_eq_true, ↓reduceIte] <;> omega
+    · intro i hi
+      rw [hflen] at hi
+      rw [hfidx i hi, melEvents_rule mstart K0' k' A' hk'.1 hK0' hA'len hA'rule i, hK]
+
+
+/-! declarative reading of `keptFrom` / `dupFrom` -/
+
+theorem keptFrom_sublist (gap : Int) : ∀ (ns : List Note) (k : Note), (keptFrom gap k ns).Sublist ns := by
+  intro ns
+  induction ns with
+  | nil => intro k; simp [keptFrom]
+  | cons n ns ih =>
+    intro k
+    unfold keptFrom
+    split
+    · exact (ih k).cons _
+    · split
+      · exact List.nil_sublist _
+      · exact (ih n).cons_cons _
+
+theorem kept_increasing (gap : Int) : ∀ (ns : List Note) (k : Note),
+    (k :: ns).Pairwise (fun a b => a.qs ≤ b.qs) →
+    (k :: keptFrom gap k ns).Pairwise (fun a b => a.qs < b.qs) := by
+  intro ns
+  induction ns with
+  | nil => intro k _; simp [keptFrom]
+  | cons n ns ih =>
+    intro k h
+    rw [List.pairwise_cons] at h
+    have hkns : (k :: ns).Pairwise (fun a b => a.qs ≤ b.qs) :=
+      List.pairwise_cons.mpr ⟨fun x hx => h.1 x (List.mem_cons_of_mem _ hx), (List.pairwise_cons.mp h.2).2⟩
+    unfold keptFrom
+    split
+    · exact ih k hkns
+    · rename_i hne
+      split
+      · simp
+      · have hn := ih n h.2
+        have hkn := h.1 n (List.mem_cons_self ..)
+        rw [List.pairwise_cons]
+        refine ⟨?_, hn⟩
+        intro x hx
+        rcases List.mem_cons.mp hx with hx | hx
+        · subst hx; omega
+        · have := (List.pairwise_cons.mp hn).1 x hx; omega
+
+theorem kept_last_ge (gap : Int) (ns : List Note) (k last : Note)
+    (hs : (k :: ns).Pairwise (fun a b => a.qs ≤ b.qs))
+    (hl : (k :: keptFrom gap k ns).getLast? = some last) : k.qs ≤ last.qs := by
+  have hinc := kept_increasing gap ns k hs
+  have hmem : last ∈ k :: keptFrom gap k ns := List.mem_of_getLast? hl
+  rcases List.mem_cons.mp hmem with h | h
+  · subst h; omega
+  · have := (List.pairwise_cons.mp hinc).1 last h; omega
+
+/-- consecutive kept notes are closer than the gap: the next starts less than `gap` steps after the previous ends -/
+theorem kept_chain (gap : Int) : ∀ (ns : List Note) (k : Note) (pre : List Note) (x y : Note) (post : List Note),
+    k :: keptFrom gap k ns = pre ++ x :: y :: post → y.qs - x.qe < gap := by
+  intro ns
+  induction ns with
+  | nil =>
+    intro k pre x y post h
+    simp only [keptFrom] at h
+    have := congrArg List.length h
+    simp at this; omega
+  | cons n ns ih =>
+    intro k pre x y post h
+    unfold keptFrom at h
+    split at h
+    · exact ih k pre x y post h
+    · split at h
+      · have := congrArg List.length h
+        simp at this; omega
+      · rename_i hg
+        cases pre with
+        | nil =>
+          simp only [List.nil_append, List.cons.injEq] at h
+          obtain ⟨h1, h2, _⟩ := h
+          subst h1; subst h2; omega
+        | cons p pre =>
+          simp only [List.cons_append, List.cons.injEq] at h
+          exact ih n pre x y post h.2
+
+/-- the melody ends at a gap: every later selected note starts `gap` steps or more after the last kept note's end -/
+theorem kept_stop (gap : Int) : ∀ (ns : List Note) (k last : Note),
+    (k :: ns).Pairwise (fun a b => a.qs ≤ b.qs) →
+    (k :: keptFrom gap k ns).getLast? = some last →
+    ∀ n ∈ ns, last.qs < n.qs → gap ≤ n.qs - last.qe := by
+  intro ns
+  induction ns with
+  | nil => intro k last _ _ n hn; simp at hn
+  | cons n ns ih =>
+    intro k last hs hl n' hn' hlt
+    have hge := kept_last_ge gap (n :: ns) k last hs hl
+    rw [List.pairwise_cons] at hs
+    have hkns : (k :: ns).Pairwise (fun a b => a.qs ≤ b.qs) :=
+      List.pairwise_cons.mpr ⟨fun x hx => hs.1 x (List.mem_cons_of_mem _ hx), (List.pairwise_cons.mp hs.2).2⟩
+    unfold keptFrom at hl
+    split at hl
+    · rename_i heq
+      rcases List.mem_cons.mp hn' with h | h
+      · subst h; omega
+      · exact ih k last hkns hl n' h hlt
+    · split at hl
+      · rename_i hg
+        simp only [List.getLast?_singleton, Option.some.injEq] at hl
+        subst hl
+        have : n.qs ≤ n'.qs := by
+          rcases List.mem_cons.mp hn' with h | h
+          · subst h; omega
+          · exact (List.pairwise_cons.mp hs.2).1 n' h
+        omega
+      · rw [List.getLast?_cons_cons] at hl
+        rcases List.mem_cons.mp hn' with h | h
+        · subst h
+          have := kept_last_ge gap ns n' last hs.2 hl
+          omega
+        · exact ih n last hs.2 hl n' h hlt
+
+/-- every selected note up to the last kept onset shares its onset with a kept note that is at least as high -/
+theorem kept_top (gap : Int) : ∀ (ns : List Note) (k last : Note),
+    (k :: ns).Pairwise MelOrd →
+    (k :: keptFrom gap k ns).getLast? = some last →
+    ∀ n ∈ ns, n.qs ≤ last.qs → ∃ x ∈ k :: keptFrom gap k ns, x.qs = n.qs ∧ n.pitch ≤ x.pitch := by
+  intro ns
+  induction ns with
+  | nil => intro k last _ _ n hn; simp at hn
+  | cons n ns ih =>
+    intro k last hs hl n' hn' hle
+    rw [List.pairwise_cons] at hs
+    have hkns : (k :: ns).Pairwise MelOrd :=
+      List.pairwise_cons.mpr ⟨fun x hx => hs.1 x (List.mem_cons_of_mem _ hx), (List.pairwise_cons.mp hs.2).2⟩
+    have hkn := hs.1 n (List.mem_cons_self ..)
+    unfold keptFrom at hl ⊢
+    split at hl
+    · rename_i heq
+      rw [if_pos heq]
+      rcases List.mem_cons.mp hn' with h | h
+      · subst h
+        refine ⟨k, List.mem_cons_self .., heq.symm, ?_⟩
+        rcases hkn with h | h <;> omega
+      · exact ih k last hkns hl n' h hle
+    · rename_i hne
+      rw [if_neg hne]
+      split at hl
+      · rename_i hg
+        rw [if_pos hg]
+        simp only [List.getLast?_singleton, Option.some.injEq] at hl
+        subst hl
+        exfalso
+        have : n.qs ≤ n'.qs := by
+          rcases List.mem_cons.mp hn' with h | h
+          · subst h; omega
+          · rcases (List.pairwise_cons.mp hs.2).1 n' h with h | h <;> omega
+        rcases hkn with h | h <;> omega
+      · rename_i hg
+        rw [if_neg hg]
+        rw [List.getLast?_cons_cons] at hl
+        rcases List.mem_cons.mp hn' with h | h
+        · subst h
+          exact ⟨n', List.mem_cons_of_mem _ (List.mem_cons_self ..), rfl, Int.le_refl _⟩
+        · obtain ⟨x, hx, hxq, hxp⟩ := ih n last hs.2 hl n' h hle
+          exact ⟨x, List.mem_cons_of_mem _ hx, hxq, hxp⟩
+
+/-- `dupFrom`: some selected note up to the last kept onset has an earlier-listed selected note on the same start
+step — two selected notes share a start step inside the extracted melody -/
+theorem dup_iff (gap : Int) : ∀ (ns : List Note) (k last : Note),
+    (k :: ns).Pairwise (fun a b => a.qs ≤ b.qs) →
+    (k :: keptFrom gap k ns).getLast? = some last →
+    (dupFrom gap k ns = true ↔
+      ∃ pre n post, ns = pre ++ n :: post ∧ n.qs ≤ last.qs ∧ (n.qs = k.qs ∨ ∃ m ∈ pre, m.qs = n.qs)) := by
+  intro ns
+  induction ns with
+  | nil =>
+    intro k last _ _
+    simp only [dupFrom, Bool.false_eq_true, false_iff]
+    rintro ⟨pre, n, post, h, _⟩
+    have := congrArg List.length h
+    simp at this
+  | cons n ns ih =>
+    intro k last hs hl
+    have hge := kept_last_ge gap (n :: ns) k last hs hl
+    rw [List.pairwise_cons] at hs
+    have hkns : (k :: ns).Pairwise (fun a b => a.qs ≤ b.qs) :=
+      List.pairwise_cons.mpr ⟨fun x hx => hs.1 x (List.mem_cons_of_mem _ hx), (List.pairwise_cons.mp hs.2).2⟩
+    have hkn := hs.1 n (List.mem_cons_self ..)
+    unfold keptFrom at hl
+    unfold dupFrom
+    split at hl
+    · rename_i heq
+      simp only [heq, ↓reduceIte, true_iff]
+      exact ⟨[], n, ns, rfl, by omega, Or.inl heq⟩
+    · rename_i hne
+      rw [if_neg hne]
+      split at hl
+      · rename_i hg
+        rw [if_pos hg]
+        simp only [List.getLast?_singleton, Option.some.injEq] at hl
+        subst hl
+        simp only [Bool.false_eq_true, false_iff]
+        rintro ⟨pre, n', post, h, hle, _⟩
+        have hmem : n' ∈ n :: ns := by rw [h]; simp
+        have : n.qs ≤ n'.qs := by
+          rcases List.mem_cons.mp hmem with h | h
+          · subst h; omega
+          · exact (List.pairwise_cons.mp hs.2).1 n' h
+        omega
+      · rename_i hg
+        rw [if_neg hg]
+        rw [List.getLast?_cons_cons] at hl
+        rw [ih n last hs.2 hl]
+        constructor
+        · rintro ⟨pre, n', post, h, hle, hor⟩
+          refine ⟨n :: pre, n', post, by rw [h]; rfl, hle, Or.inr ?_⟩
+          rcases hor with h' | ⟨m, hm, hmq⟩
+          · exact ⟨n, List.mem_cons_self .., h'.symm⟩
+          · exact ⟨m, List.mem_cons_of_mem _ hm, hmq⟩
+        · rintro ⟨pre, n', post, h, hle, hor⟩
+          cases pre with
+          | nil =>
+            simp only [List.nil_append, List.cons.injEq] at h
+            obtain ⟨h1, _⟩ := h
+            subst h1
+            rcases hor with h' | ⟨m, hm, _⟩
+            · omega
+            · simp at hm
+          | cons p pre =>
+            simp only [List.cons_append, List.cons.injEq] at h
+            obtain ⟨h1, h2⟩ := h
+            subst h1
+            refine ⟨pre, n', post, h2, hle, ?_⟩
+            have hmem : n' ∈ ns := by rw [h2]; simp
+            have hnn' : n.qs ≤ n'.qs := (List.pairwise_cons.mp hs.2).1 n' hmem
+            rcases hor with h' | ⟨m, hm, hmq⟩
+            · omega
+            · rcases List.mem_cons.mp hm with h | h
+              · subst h; exact Or.inl hmq.symm
+              · exact Or.inr ⟨m, h, hmq⟩
+
+
+/-! ## bar alignment (Melody and DrumTrack start steps) -/
+
+/-- `first − (first − search_start) mod spb` is the first step of the bar (counted from `search_start_step`) that
+contains `first` -/
+theorem bar_start (first ss spb : Int) (hpos : 0 < spb) :
+    let st := first - Int.fmod (first - ss) spb
+    st ≤ first ∧ first < st + spb ∧ Int.fmod (st - ss) spb = 0 := by
+  intro st
+  have h0 := Int.fmod_nonneg_of_pos (first - ss) hpos
+  have h1 := Int.fmod_lt_of_pos (first - ss) hpos
+  refine ⟨by omega, by omega, ?_⟩
+  have : st - ss = spb * (first - ss).fdiv spb := by
+    have := Int.fmod_def (first - ss) spb
+    omega
+  rw [this, Int.mul_fmod_right]
+
+
+/-! ## Non-vacuity: every theorem above is instantiated at a concrete, non-trivial input whose hypotheses are
+discharged by evaluation, so no statement is vacuous. -/
+
+def exNote (pitch qs qe : Int) (vel : Int := 100) (inst : Int := 0) (drum : Bool := false) (start : Rat := 0) : Note :=
+  { pitch := pitch, velocity := vel, start := start, end_ := 0, qs := qs, qe := qe, instrument := inst,
+    program := 0, isDrum := drum, numerator := 0, denominator := 0, voice := 0, part := 0, pitchName := 0 }
+
+/-- relative-quantized, 4 steps per quarter, 4/4: a drum hit at step 0 on instrument 0 (the F-C07-2 shape), a two-note
+chord at step 0, two abutting notes of pitch 60 (the F-C12-1 shape), a note after more than a bar of silence; chords
+with an identical coincident pair -/
+def exRel : NoteSeq :=
+  { notes := [exNote 36 0 1 100 0 true, exNote 64 0 2, exNote 55 0 2, exNote 60 2 4, exNote 60 4 6, exNote 62 24 26],
+    timeSigs := [⟨0, 4, 4⟩], spq := 4, totalQSteps := 26,
+    texts := [⟨0, 2, 1, "x43"⟩, ⟨0, 9, 1, "x47"⟩, ⟨0, 9, 1, "x47"⟩, ⟨0, 30, 1, "x46"⟩] }
+
+/-- absolute-quantized, 100 steps per second, stored in `(start_time, pitch)` order -/
+def exAbs : NoteSeq :=
+  { notes := [exNote 60 0 4 10 0 false 0, exNote 60 4 8 120 0 false (1/25), exNote 64 4 6 10 0 false (1/25),
+              exNote 67 30 31 64 0 false (3/10)],
+    sps := 100, totalQSteps := 31 }
+
+theorem exRel_spb : stepsPerBar exRel = .ok 16 := by decide +kernel
+
+-- pianoroll_frames / pianoroll_frame_mem / pianoroll_index_error_iff
+example := pianoroll_frames exRel 0 55 64 true (by decide) (by decide) (by decide) (by decide)
+example := pianoroll_frame_mem exRel 0 55 64 true (by decide) (by decide) (by decide) (by decide)
+example := pianoroll_index_error_iff exRel 0 55 64 true (by decide) (by decide) (by decide)
+-- the cell the fixes were about: step 3 is silenced before the re-strike of pitch 60 at step 4, step 5 is not
+example : rollSpec exRel.notes ⟨0, 55, 64, true, 26⟩ 3 5 = false ∧ rollSpec exRel.notes ⟨0, 55, 64, true, 26⟩ 5 5 = true ∧
+    rollSpec exRel.notes ⟨0, 55, 64, false, 26⟩ 3 5 = true := by decide
+
+-- drums_steps / drums_empty
+example := drums_steps exRel 0 1 true false 16 exRel_spb (by decide) (by decide)
+example := drums_steps exRel 0 1 false true 16 exRel_spb (by decide) (by decide)
+example := drums_empty exRel 16 1 false false 16 exRel_spb (by decide)
+
+-- chords_steps / chords_coincident_iff (identical chords at step 9 are not a conflict)
+theorem exRel_noCoincidence : ¬ ChordsCoincident exRel 0 12 := by
+  rintro ⟨a, ha, b, hb, _, _, hq, _, hlt, hne⟩
+  simp only [exRel, List.mem_cons, List.not_mem_nil, or_false] at ha hb
+  rcases ha with rfl | rfl | rfl | rfl <;> rcases hb with rfl | rfl | rfl | rfl <;> simp_all
+example := chords_steps exRel 0 12 16 exRel_spb (by decide) exRel_noCoincidence
+example := chords_coincident_iff exRel 0 12 16 exRel_spb (by decide)
+example : ChordsCoincident { exRel with texts := exRel.texts ++ [⟨0, 9, 1, "x41"⟩] } 0 12 :=
+  ⟨⟨0, 9, 1, "x47"⟩, by simp [exRel], ⟨0, 9, 1, "x41"⟩, by simp [exRel], rfl, rfl, rfl, by decide, by decide, by decide⟩
+
+-- noteperf_tuples / noteperf_errors
+theorem exAbs_sorted : sortedNotes exAbs 0 none = exAbs.notes := by
+  have h : selectNotes exAbs 0 none = exAbs.notes := by decide +kernel
+  rw [sortedNotes, h]
+  exact List.mergeSort_of_pairwise (by decide +kernel)
+theorem exAbs_valid : ∀ n ∈ exAbs.notes, (0 : Int) ≤ n.qs → instOk none n = true → NPValid n := by
+  intro n hn _ _
+  simp only [exAbs, List.mem_cons, List.not_mem_nil, or_false] at hn
+  rcases hn with rfl | rfl | rfl | rfl <;> simp [NPValid, exNote]
+theorem exAbs_ord : (sortedNotes exAbs 0 none).Pairwise (fun a b => a.qs ≤ b.qs) := by
+  rw [exAbs_sorted]; decide
+example := noteperf_errors exAbs 8 none 0 25 4 (by decide) (by decide) (by decide) exAbs_valid exAbs_ord
+example := noteperf_tuples exAbs 8 none 0 26 4 (by decide) (by decide) (by decide) exAbs_valid exAbs_ord
+  (by rw [exAbs_sorted]
+      intro i n h
+      simp only [exAbs] at h
+      match i, h with
+      | 0, h | 1, h | 2, h | 3, h =>
+        simp only [List.getElem?_cons_zero, List.getElem?_cons_succ, Option.some.injEq] at h
+        subst h; simp [prevStep, exAbs, exNote]
+      | i + 4, h => simp at h)
+
+-- perf_defined / perf_shifts / perf_onoff_multiset / perf_onsets_in_order / perf_notes_multiset (max_shift_steps = 8: 22 steps of
+-- silence must be split)
+theorem exAbs_perf : ∃ evs, perfEvents exAbs 0 8 8 none = .ok evs :=
+  perf_defined exAbs 0 8 8 none (by decide) (by decide) (by
+    intro n hn _ _
+    simp only [exAbs, List.mem_cons, List.not_mem_nil, or_false] at hn
+    rcases hn with rfl | rfl | rfl | rfl <;> simp [exNote])
+theorem exAbs_wf : ∀ n ∈ exAbs.notes, (0 : Int) ≤ n.qs → instOk none n = true → n.qs ≤ n.qe := by decide
+example : ∃ evs, perfEvents exAbs 0 8 8 none = .ok evs ∧ (∀ v, PEvent.timeShift v ∈ evs → 1 ≤ v ∧ v ≤ 8) ∧
+    (noteStream 0 evs).Perm ((selectNotes exAbs 0 none).map (fun n => (PEvent.noteOn n.pitch, n.qs)) ++
+      (selectNotes exAbs 0 none).map (fun n => (PEvent.noteOff n.pitch, n.qe))) ∧
+    (onStream 0 0 evs).Perm ((selectNotes exAbs 0 none).map (fun n => (n.pitch, n.qs, binOf 8 0 n))) :=
+  let ⟨evs, h⟩ := exAbs_perf
+  ⟨evs, h, (perf_shifts exAbs 0 8 8 none evs (by decide) exAbs_wf h).1,
+    perf_onoff_multiset exAbs 0 8 8 none evs (by decide) exAbs_wf h,
+    (perf_onsets_in_order exAbs 0 8 8 none evs (by decide) exAbs_wf h).2⟩
+
+theorem exAbs_select : selectNotes exAbs 0 none = exAbs.notes := by decide +kernel
+example : ∃ evs, perfEvents exAbs 0 8 8 none = .ok evs ∧
+    (decodeNotes 0 evs).Perm ((selectNotes exAbs 0 none).map fun n => (n.pitch, n.qs, n.qe, binOf 8 0 n)) :=
+  let ⟨evs, h⟩ := exAbs_perf
+  ⟨evs, h, perf_notes_multiset exAbs 0 8 8 none evs (by decide)
+    (by rw [exAbs_select]; unfold NoSamePitchOverlap; decide +kernel)
+    (by rw [exAbs_select]; decide) h⟩
+
+-- steps_per_bar_nonInteger_iff (binary64 rounding is exact on 4/4 at 4 steps per quarter; 3/8 at 1 step is rejected)
+example := steps_per_bar_nonInteger_iff rne53 exRel ⟨0, 4, 4⟩ [] rfl (by decide) (by decide)
+  ⟨by decide +kernel, by decide +kernel, by decide +kernel⟩
+example : stepsPerBar { exRel with spq := 1, timeSigs := [⟨0, 3, 8⟩] } = .error .nonIntegerStepsPerBarError := by
+  decide +kernel
+example := extractors_nonInteger_iff exRel
+
+-- melody_steps: instrument 0 with the drum hit filtered; selected notes in (start step, −pitch) order
+theorem exRel_melSorted :
+    (exRel.notes.filter (melSel 0 0 true)).mergeSort melLe =
+      exNote 64 0 2 :: [exNote 55 0 2, exNote 60 2 4, exNote 60 4 6, exNote 62 24 26] := by
+  have h : exRel.notes.filter (melSel 0 0 true) =
+      [exNote 64 0 2, exNote 55 0 2, exNote 60 2 4, exNote 60 4 6, exNote 62 24 26] := by decide +kernel
+  rw [h]
+  exact List.mergeSort_of_pairwise (by decide +kernel)
+theorem exRel_melValid : ∀ n ∈ exRel.notes, melSel 0 0 true n = true → n.qs < n.qe ∧ 0 ≤ n.pitch := by decide
+example := melody_steps exRel 0 0 1 true false true 16 exRel_spb (by decide) exRel_melValid _ _ exRel_melSorted
+example := melody_steps exRel 0 0 1 false true true 16 exRel_spb (by decide) exRel_melValid _ _ exRel_melSorted
+-- the kept notes: the highest note of the chord, the two abutting notes; the note at step 24 is 18 ≥ 16 steps after
+-- the end (6) of the last kept note; the chord at step 0 is the duplicate
+example : keptFrom 16 (exNote 64 0 2) [exNote 55 0 2, exNote 60 2 4, exNote 60 4 6, exNote 62 24 26] =
+    [exNote 60 2 4, exNote 60 4 6] ∧
+    dupFrom 16 (exNote 64 0 2) [exNote 55 0 2, exNote 60 2 4, exNote 60 4 6, exNote 62 24 26] = true := by
+  decide +kernel
+example := melody_empty exRel 0 2 1 true false true 16 exRel_spb (by decide)
+example := bar_start 24 0 16 (by decide)
+
+
 end NSV.C07
